@@ -170,7 +170,7 @@ uint8_t g_w[11];
 	((size_t) __CPROVER_OBJECT_SIZE(p) - (size_t) __CPROVER_POINTER_OFFSET(p))
 /* a terminator exists within the first cap+1 bytes (cap: constant) */
 #define STR_TERMINATED_WITHIN(p, cap, v) \
-	__CPROVER_exists { size_t v; (v <= (cap)) && (v < STR_ROOM(p) && (p)[v] == 0) }
+	__CPROVER_exists { size_t v; (v <= (cap)) && ((p)[v] == 0) }
 /* no terminator in p[0..k] (k < cap) */
 #define STR_BEFORE_END(p, k, cap, v) \
 	__CPROVER_forall { size_t v; (v <= (cap)) ==> ((v <= (k)) ==> (p)[v] != 0) }
